@@ -2,6 +2,8 @@ import SFV.Proofs.HwCompile
 import SFV.Proofs.HwMerge
 import SFV.Proofs.HwTemplate
 import SFV.Proofs.HwChecks
+import SFV.Proofs.HwSymMesh
+import SFV.Proofs.HwGbsOpt
 
 /-!
 # C12 — hardware compilation conforms to the device and preserves the experiment
@@ -391,5 +393,44 @@ theorem hard_coded_parameters (l p : List GArg) :
 example : hardCodedClash [.sym "bs", .num 0] [.num (1 / 2), .num 0] = false ∧
     hardCodedClash [.num (5643 / 10000), .num 0] [.num 2, .num 0] = true ∧
     fixedValuesMatch [.sym "r", .num 0] [.num 1, .num (1 / 4)] = false := by decide +kernel
+
+/-! ## `rectangular_symmetric`: the phases it computes -/
+
+/-- **symmetric_push_exact.**  The angles `rectangular_symmetric` computes when it moves a local phase pair past a
+Mach-Zehnder block (`φ_e' = α − β`, `α' = β − φ_e − φ_i + π`, `β' = β − φ_i + π`, `φ_i' = φ_i`, all mod 2π) satisfy
+`M(φ_i, φ_e)⁻¹ · diag(e^{iα}, e^{iβ}) = diag(e^{iα'}, e^{iβ'}) · M(φ_i', φ_e')` entry by entry — for every angle, over every
+commutative ring, for every map `E` with the laws of `x ↦ e^{iπx}` (`PhaseHom`), `c = cos(φ_i/2)`, `s = sin(φ_i/2)`.  (The identity on\natoms is C17's `push_phase_MZ`; new here: the source's angle arithmetic yields exactly those atoms.) -/
+theorem symmetric_push_exact {K : Type} [CommRing K] (H : PhaseHom K) (c s : K) (phiI phiE alpha beta : Rat)
+    (hc : c * c + s * s = 1) (hcs : (⟨c * c - s * s, 2 * c * s⟩ : Decomp.Cx K) = H.E phiI)
+    (hb : (H.E beta).re * (H.E beta).re + (H.E beta).im * (H.E beta).im = 1) :
+    let r := pushSymStep phiI phiE alpha beta
+    (Decomp.blkMZi c s (H.E phiE)).a * H.E alpha = H.E r.2.2.1 * (Decomp.blkMZ c s (H.E r.2.1)).a ∧
+    (Decomp.blkMZi c s (H.E phiE)).b * H.E beta = H.E r.2.2.1 * (Decomp.blkMZ c s (H.E r.2.1)).b ∧
+    (Decomp.blkMZi c s (H.E phiE)).c * H.E alpha = H.E r.2.2.2 * (Decomp.blkMZ c s (H.E r.2.1)).c ∧
+    (Decomp.blkMZi c s (H.E phiE)).d * H.E beta = H.E r.2.2.2 * (Decomp.blkMZ c s (H.E r.2.1)).d :=
+  pushSymStep_sound H c s phiI phiE alpha beta hc hcs hb
+
+example : pushSymStep (1 / 2) (1 / 3) (1 / 4) (3 / 2) = (1 / 2, 3 / 4, 5 / 3, 0) := by decide +kernel
+
+/-! ## GBS measurement collection: options -/
+
+/-- **gbs_options_follow_modes.**  When the Fock measurements of a circuit measure disjoint modes and `GBS.compile` (used by
+Xstrict, Xunitary, Xcov) combines them, the single measurement acts on exactly the measured modes and carries, at the place of
+every mode, the post-selection value / dark count the source gave for THAT MODE — for every number and order of commands and
+every order of the modes inside them (index, not position). -/
+theorem gbs_options_follow_modes (B : List FockCmd) (hdis : (B.flatMap (·.regs)).Nodup)
+    (modes : List Nat) (sel : Option (List Nat)) (dk : Option (List Rat)) (h : gbsOptions B = .ok (modes, sel, dk)) :
+    (∀ m, m ∈ modes ↔ ∃ c ∈ B, m ∈ c.regs) ∧
+    (∀ c ∈ B, ∀ s, c.select = some s → ∀ k (h1 : k < c.regs.length) (h2 : k < s.length),
+      ∃ out, sel = some out ∧ ∃ j : Nat, modes[j]? = some c.regs[k] ∧ out[j]? = some s[k]) ∧
+    (∀ c ∈ B, ∀ d, c.dark = some d → ∀ k (h1 : k < c.regs.length) (h2 : k < d.length),
+      ∃ out, dk = some out ∧ ∃ j : Nat, modes[j]? = some c.regs[k] ∧ out[j]? = some d[k]) :=
+  gbsOptions_spec B hdis modes sel dk h
+
+example : (match gbsOptions [⟨[3, 1], some [7, 5], none⟩, ⟨[0, 2], some [4, 6], none⟩] with
+    | .ok r => decide (r = ([0, 1, 2, 3], some [4, 5, 6, 7], none)) | .error _ => false) = true ∧
+    (match gbsOptions [⟨[3, 1], some [7, 5], none⟩, ⟨[0, 2], none, none⟩] with | .ok _ => false | .error _ => true) = true ∧
+    (match gbsOptions [⟨[2], none, some [1 / 8]⟩, ⟨[0, 1], none, none⟩] with
+    | .ok r => decide (r = ([0, 1, 2], none, some [0, 0, 1 / 8])) | .error _ => false) = true := by decide +kernel
 
 end SFV.C12
